@@ -104,15 +104,16 @@ def _rand_records(arg):
             if path != 'call' and rnd.random() < 0.4:
                 p = dc.rand_prev(rnd, dt, c)
                 prev = None if p['j'] == 'none' else dc.concrete(p, dt, obj, internal=True)
-            o = objs[rnd.randrange(2)]
+            which = rnd.randrange(2)
+            o = objs[which]
             if path == 'wire':
                 out, _ = dc.outcome_of(lambda: o.validate(o.import_value(conc), prev), dt, c, conc, p, prev)
             elif path == 'write':
                 out, _ = dc.outcome_of(lambda: o.validate(conc, prev), dt, c, conc, p, prev)
             else:
                 out, _ = dc.outcome_of(lambda: o(conc), dt, c, conc)
-            recs.append({'kind': 'case', 'dt': dt, 'c': c, 'p': p, 'path': path, 'out': out, 'via': 'random',
-                         'conc': repr(conc)[:300]})
+            recs.append({'kind': 'case', 'dt': dt, 'c': c, 'p': p, 'path': path, 'out': out, 'via': ('ctor', 'rebuilt')[which],
+                         'src': 'random', 'conc': repr(conc)[:300], '_conc': conc})
     return recs
 
 
@@ -121,23 +122,30 @@ judge = dc.judge
 rkey = dc.rkey
 
 
-def _run_child(arg):
-    dt, c, p, path = arg
+def _run_child(dt, c, p, path, via, conc=None):
     obj = dc.build_type(dt)
-    out, _ = dc.run_case(obj, dt, c, p, path)
-    return {'kind': 'case', 'dt': dt, 'c': c, 'p': p, 'path': path, 'out': out, 'via': 'ctor'}
+    if via == 'rebuilt':
+        obj = dc.rebuild_type(obj)
+    out, _ = dc.run_case(obj, dt, c, p, path, conc)
+    r = {'kind': 'case', 'dt': dt, 'c': c, 'p': p, 'path': path, 'out': out, 'via': via}
+    if conc is not None:
+        r['_conc'] = conc
+    return r
 
 
 def _kids(r):
+    """element sub-cases, executed on the same kind of datatype object and - where the record carries
+    them - with the very concrete element values of the failing case"""
     res = []
-    for sdt, sc, sp in dc.children(r['dt'], r['c'], r['p']):
+    kids = dc.children(r['dt'], r['c'], r['p'])
+    concs = dc.concrete_children(r['dt'], r['c'], r['_conc']) if '_conc' in r else None
+    for i, (sdt, sc, sp) in enumerate(kids):
         if r['path'] == 'wire' and dc.has_internal(sc):
             continue
-        kid = _run_child((sdt, sc, sp if r['path'] != 'call' else dc.NONE, r['path']))
-        if sp['j'] != 'none' and r['dt']['k'] == 'struct':
-            # StructOf does not hand the previous value down: judge the member as the container ran it
-            kid = _run_child((sdt, sc, dc.NONE, r['path']))
-        res.append(kid)
+        conc = concs[i] if concs is not None and len(concs) == len(kids) else None
+        if sp['j'] != 'none' and r['dt']['k'] == 'struct' or r['path'] == 'call':
+            sp = dc.NONE      # StructOf does not hand the previous value down: judge the member as the container ran it
+        res.append(_run_child(sdt, sc, sp, r['path'], r.get('via', 'ctor'), conc))
     return res
 
 
@@ -183,7 +191,7 @@ def report(chk, failing, idem):
                             'candidate': dc.show(root['c']), 'previous': dc.show(root['p']), 'path': root['path'],
                             'observed': dc.show_outcome(root['out']), 'clause': clause,
                             'seen_in': {'type': dc.show_type(top['dt']), 'candidate': dc.show(top['c']),
-                                        'via': top.get('via'), 'conc': top.get('conc')}})
+                                        'via': top.get('via'), 'src': top.get('src', 'enumerated'), 'conc': top.get('conc')}})
     for r in idem:
         sig = {'module': 'Datatypes', 'kind': r['dt']['k'], 'cand': dc.cand_class(r['dt'], r['c']),
                'clause': 'idempotent', 'again': r['idem']['again'], 'path': r['path']}
